@@ -42,3 +42,105 @@ package balance
 //@ func (*Report).SortWeighted$2
 //@   requires nodeReady(n1) && nodeReady(n2)
 //@   ensures [C06] @tie: result == 0 ==> (len(n1.Value.Account.segments) == 1 && len(n2.Value.Account.segments) == 1 ? n1.Value.Account.accountType == n2.Value.Account.accountType : n1.Segment == n2.Segment)
+//
+// Insert: an amount is filed under the account of its key - in the A/L tree iff that account is an
+// asset or liability account, else in the E/I/E tree - at the node of the account's own segments, and
+// added to that node's amounts under the full key with the given value: exactly one Add, nothing else.
+// A key without account (hidden by a mapping) is not filed at all.
+//@ func (*Report).Insert
+//@   requires r != nil && r.AL != nil && r.EIE != nil && (k.Account != nil ==> validAccount(k.Account))
+//@   modifies *
+//@   callback GetOrCreate=0
+//@   callback Add=1
+//@   ensures [C01] [C02] @hidden: k.Account == nil ==> tlen() == old(tlen())
+//@   ensures [C01] [C02] @filed: k.Account != nil ==> tlen() == old(tlen()) + 2
+//@        && trecv("GetOrCreate", old(tlen())) == (old(isAL(k.Account)) ? old(r.AL) : old(r.EIE))
+//@        && targ("GetOrCreate", 0, old(tlen())) == old(k.Account.segments)
+//@        && trecv("Add", old(tlen()) + 1) == tres("GetOrCreate", old(tlen())).Value.Amounts
+//@        && targ("Add", 0, old(tlen()) + 1) == k && targ("Add", 1, old(tlen()) + 1) == v
+//
+// Totals: the visitor adds the amounts of EVERY node it is given - whether or not the node has
+// children - into the running total of its tree, unfiltered and under the caller's key mapper; the
+// A/L tree is summed into the first result and the E/I/E tree into the second, both fresh.
+//@ func (*Report).Totals$1
+//@   requires n != nil && al != nil && n.Value.Amounts != al
+//@   modifies al[*]
+//@   callback SumIntoBy=0
+//@   ensures [C01] [C02] @sum: tlen() == old(tlen()) + 1 && trecv("SumIntoBy", old(tlen())) == n.Value.Amounts && targ("SumIntoBy", 0, old(tlen())) == al
+//@        && targ("SumIntoBy", 1, old(tlen())) == nil && targ("SumIntoBy", 2, old(tlen())) == m
+//
+//@ func (*Report).Totals$2
+//@   requires n != nil && eie != nil && n.Value.Amounts != eie
+//@   modifies eie[*]
+//@   callback SumIntoBy=0
+//@   ensures [C01] [C02] @sum: tlen() == old(tlen()) + 1 && trecv("SumIntoBy", old(tlen())) == n.Value.Amounts && targ("SumIntoBy", 0, old(tlen())) == eie
+//@        && targ("SumIntoBy", 1, old(tlen())) == nil && targ("SumIntoBy", 2, old(tlen())) == m
+//
+//@ func (*Report).Totals
+//@   requires r != nil && r.AL != nil && r.EIE != nil
+//@   modifies nothing
+//@   callback PostOrder=0
+//@   ensures [C01] [C02] @trees: tlen() == old(tlen()) + 2 && trecv("PostOrder", old(tlen())) == old(r.AL) && trecv("PostOrder", old(tlen()) + 1) == old(r.EIE)
+//@   ensures result.0 != nil && result.1 != nil && result.0 != result.1 && fresh(result.0) && fresh(result.1)
+//
+// The sorted children lists of the report tree hold nodes, all the way down (tree invariant
+// established by multimap.Node.Sort; the tree is not modified while the table is rendered). It is an
+// uninterpreted predicate with the one unfolding the renderer needs - a trusted data-structure invariant.
+//@ spec sortedTree(n *Node) bool
+//@ axiom sorted_tree_unfold: forall n *Node :: {sortedTree(n)} sortedTree(n) ==> n != nil && (forall i int :: {n.Sorted[i]} 0 <= i && i < len(n.Sorted) ==> sortedTree(n.Sorted[i]))
+//
+// renderNode: rows are only appended and every row is complete (the subtree is rendered recursively).
+//@ func (*Renderer).renderNode
+//@   requires t != nil && widthOK(rn, t) && allComplete(t) && sortedTree(n)
+//@   modifies t.rows, elems(t.rows), elems(t.rows[0].cells)
+//@   ensures @rect: allComplete(t) && widthOK(rn, t) && len(t.rows) >= old(len(t.rows)) && t.columns == old(t.columns)
+//@   ensures @kept: forall k int :: {t.rows[k]} 0 <= k && k < old(len(t.rows)) ==> t.rows[k] == old(t.rows[k])
+//@   loop 1 invariant 0 <= $i && $i <= len($range) && $range == n.Sorted && sortedTree(n)
+//@   loop 1 invariant allComplete(t) && widthOK(rn, t) && len(t.rows) >= old(len(t.rows)) && t.columns == old(t.columns)
+//@   loop 1 invariant forall k int :: {t.rows[k]} 0 <= k && k < old(len(t.rows)) ==> t.rows[k] == old(t.rows[k])
+//
+// SetAccounts / SortAlpha / SortWeighted walk the whole tree recursively (outside the contracts'
+// reach); they are trusted to touch only tree nodes and, for SetAccounts, the account registry, and
+// the sorts to establish the sorted-children invariant.
+//@ func (*Report).SetAccounts
+//@   trusted
+//@   requires r != nil
+//@   modifies fields(r.AL), r.Registry.accounts.index[*]
+//
+//@ func (*Report).SortAlpha
+//@   trusted
+//@   requires r != nil
+//@   modifies fields(r.AL)
+//@   ensures sortedTree(r.AL) && sortedTree(r.EIE)
+//@   ensures (forall i int :: {r.AL.Sorted[i]} 0 <= i && i < len(r.AL.Sorted) ==> sortedTree(r.AL.Sorted[i])) && (forall i int :: {r.EIE.Sorted[i]} 0 <= i && i < len(r.EIE.Sorted) ==> sortedTree(r.EIE.Sorted[i]))
+//
+//@ func (*Report).SortWeighted
+//@   trusted
+//@   requires r != nil
+//@   modifies fields(r.AL)
+//@   ensures sortedTree(r.AL) && sortedTree(r.EIE)
+//@   ensures (forall i int :: {r.AL.Sorted[i]} 0 <= i && i < len(r.AL.Sorted) ==> sortedTree(r.AL.Sorted[i])) && (forall i int :: {r.EIE.Sorted[i]} 0 <= i && i < len(r.EIE.Sorted) ==> sortedTree(r.EIE.Sorted[i]))
+//
+// Render: a rectangular table (every row complete); the "Delta" row renders, un-negated, the A/L
+// total plus the E/I/E total - the two results of Report.Totals over the caller's key mapper, combined
+// with Amounts.Plus (pointwise sum) - after "Total (A+L)" was rendered from the first (un-negated) and
+// "Total (E+I+E)" from the second (negated).
+//@ func (*Renderer).Render
+//@   requires rn != nil && r != nil && r.AL != nil && r.EIE != nil && r.Registry != nil && r.Registry.accounts != nil && len(r.partition.periods) >= 0
+//@   modifies *
+//@   callback Totals=0
+//@   callback render=0
+//@   callback Plus=0
+//@   ensures [C01] [C02] [C17] @rect: result != nil && allComplete(result)
+//@   ensures [C01] @delta: tlen() == old(tlen()) + 5
+//@        && targ("render", 2, old(tlen()) + 1) == "Total (A+L)" && targ("render", 3, old(tlen()) + 1) == false && targ("render", 4, old(tlen()) + 1) == tres("Totals", old(tlen()))
+//@        && targ("render", 2, old(tlen()) + 2) == "Total (E+I+E)" && targ("render", 3, old(tlen()) + 2) == true && targ("render", 4, old(tlen()) + 2) == tres1("Totals", old(tlen()))
+//@        && trecv("Plus", old(tlen()) + 3) == tres("Totals", old(tlen())) && targ("Plus", 0, old(tlen()) + 3) == tres1("Totals", old(tlen()))
+//@        && targ("render", 2, old(tlen()) + 4) == "Delta" && targ("render", 3, old(tlen()) + 4) == false && targ("render", 4, old(tlen()) + 4) == tres("Totals", old(tlen()))
+//@   loop 1 invariant 0 <= $i && $i <= len($range) && tlen() == old(tlen()) && len($range) == len(rn.partition.periods)
+//@   loop 1 invariant tbl != nil && fresh(tbl) && header != nil && fresh(header) && live(header) && rowOf(header, tbl)
+//@   loop 1 invariant len(tbl.columns) == 1 + (rn.drawCommsColumn ? 1 : 0) + len(rn.partition.periods)
+//@   loop 1 invariant len(tbl.rows) == 2 && tbl.rows[1] == header && complete(tbl.rows[0], tbl) && live(tbl.rows[0]) && tbl.rows[0] != header
+//@   loop 1 invariant len(header.cells) == 1 + (rn.drawCommsColumn ? 1 : 0) + $i
+//@   loop 2 invariant 0 <= $i && $i <= len($range) && tlen() == old(tlen()) + 1 && widthOK(rn, tbl) && allComplete(tbl) && (forall i int :: {$range[i]} 0 <= i && i < len($range) ==> sortedTree($range[i]))
+//@   loop 3 invariant 0 <= $i && $i <= len($range) && tlen() == old(tlen()) + 2 && widthOK(rn, tbl) && allComplete(tbl) && (forall i int :: {$range[i]} 0 <= i && i < len($range) ==> sortedTree($range[i]))
